@@ -31,6 +31,12 @@ type Options struct {
 	OneLineRules bool
 }
 
+// symLex is the lexical element of a symbol: a quoted literal needs no blank
+// around it ('a''b', %left'+', A'b' are all legal), a name does.
+func symLex(src string) lex {
+	return lex{s: src, punct: len(src) > 0 && src[0] == '\''}
+}
+
 type lex struct {
 	s     string
 	punct bool // may touch its neighbours
@@ -220,7 +226,7 @@ func Render(g *spec.Grammar, p Parts, o Options) string {
 		}
 		for _, ti := range toks {
 			t := g.Tokens[ti]
-			l = append(l, lex{s: t.Src()})
+			l = append(l, symLex(t.Src()))
 			if withNum && t.Name != "" && t.Num != 0 {
 				l = append(l, lex{s: fmt.Sprint(t.Num)})
 			} else if t.Name != "" && coin(5) == 1 {
@@ -329,7 +335,7 @@ func Render(g *spec.Grammar, p Parts, o Options) string {
 			l = append(l, lex{s: "<", punct: true}, lex{s: tag}, lex{s: ">", punct: true})
 		}
 		for _, ti := range pl.Toks {
-			l = append(l, lex{s: g.Tokens[ti].Src()})
+			l = append(l, symLex(g.Tokens[ti].Src()))
 		}
 		l[len(l)-1].nl = true
 		precBlocks = append(precBlocks, l)
@@ -375,7 +381,7 @@ func Render(g *spec.Grammar, p Parts, o Options) string {
 				rules = append(rules, lex{s: "/* empty */"})
 			}
 			for _, s := range ru.Rhs {
-				rules = append(rules, lex{s: g.SymSrc(s)})
+				rules = append(rules, symLex(g.SymSrc(s)))
 			}
 			act := ""
 			if !g.NoAction {
@@ -386,13 +392,13 @@ func Render(g *spec.Grammar, p Parts, o Options) string {
 			}
 			precAfter := ru.Prec >= 0 && act != "" && coin(4) == 1
 			if ru.Prec >= 0 && !precAfter {
-				rules = append(rules, lex{s: "%prec"}, lex{s: g.Tokens[ru.Prec].Src()})
+				rules = append(rules, lex{s: "%prec"}, symLex(g.Tokens[ru.Prec].Src()))
 			}
 			if act != "" {
 				rules = append(rules, lex{s: act, punct: true})
 			}
 			if precAfter {
-				rules = append(rules, lex{s: "%prec"}, lex{s: g.Tokens[ru.Prec].Src()})
+				rules = append(rules, lex{s: "%prec"}, symLex(g.Tokens[ru.Prec].Src()))
 			}
 			k++
 			if k < len(g.Rules) && g.Rules[k].Lhs == lhs && coin(4) != 1 {
